@@ -119,7 +119,15 @@ impl<'a> Tr<'a> {
         }
     }
 
+    /// the Lean name to call `s` by: inside `def Other.f` the namespace `Other` is open, so a function of the primary type (or
+    /// a free one) with the same name as a function of `Other` is named in full
     fn sig_lean_name(&self, s: &Sig) -> String {
+        let callee_top = s.ty.is_empty() || s.ty == self.opts.impl_type;
+        let caller_nested = !self.cur_type.is_empty() && self.cur_type != self.opts.impl_type;
+        if callee_top && caller_nested {
+            let ns = self.opts.namespace.clone().unwrap_or_else(|| format!("Evenio.Gen.{}", self.opts.impl_type));
+            return format!("{ns}.{}", s.lean);
+        }
         s.lean.clone()
     }
 
@@ -195,11 +203,26 @@ impl<'a> Tr<'a> {
     #[allow(clippy::too_many_arguments)]
     fn mut_call(&mut self, m: &syn::ExprMethodCall, recv: &Expr, env: &Env, lean: &str, want: &[Ty], ret: &Ty, panics: bool, what: &str) -> Res<(L, Ty)> {
         let sp = m.span();
+        // `x.part_mut()` given by --prim as the identity (`&mut self`): the part is modelled as the whole
+        let mut recv = recv;
+        while let Expr::MethodCall(inner) = recv {
+            let is_identity = inner.args.is_empty() && self.prims.iter().any(|p| p.method && p.self_mut && p.lean == "_" && p.name == inner.method.to_string());
+            if !is_identity {
+                break;
+            }
+            let pr = self.prims.iter().find(|p| p.method && p.self_mut && p.lean == "_" && p.name == inner.method.to_string()).unwrap().clone();
+            note!(self, prims, format!("`{}` is taken as the identity (the part borrowed is modelled as the whole value)", pr.spec));
+            recv = &inner.receiver;
+        }
         // the receiver: a state variable, or a place rooted at one
+        let mut recv_borrow: Option<Borrow> = None;
         let (read, root, pl) = match self.as_place(recv) {
             Some((b, segs)) if segs.is_empty() => {
-                if !self.is_state_var(&b) && !matches!(self.lookup(env, &b), Some(Var { kind: Kind::MutLocal, .. })) {
-                    return self.unsupported(sp, format!("call of {what}, which changes its receiver, on something that is not `&mut` state:"));
+                match self.lookup(env, &b).map(|v| v.kind.clone()) {
+                    _ if self.is_state_var(&b) => {}
+                    Some(Kind::MutLocal) | Some(Kind::ElemMut) => {}
+                    Some(Kind::MutBorrow(bor)) => recv_borrow = Some(bor),
+                    _ => return self.unsupported(sp, format!("call of {what}, which changes its receiver, on something that is not `&mut` state:")),
                 }
                 (lean_ident(&b), b, None)
             }
@@ -209,15 +232,55 @@ impl<'a> Tr<'a> {
             }
             None => return self.unsupported(sp, format!("receiver of the call of {what} (only a place)")),
         };
-        let args = self.args_expected(&m.args, want, env, what, sp)?;
+        let mut_idx = std::mem::take(&mut self.call_mut_idx);
+        // an argument handed on as `&mut` state must be a state variable of the caller: its new value comes back
+        let mut mut_args: Vec<(String, String)> = vec![];
+        for k in &mut_idx {
+            let a = match m.args.iter().nth(*k) {
+                Some(a) => a,
+                None => return self.err(sp, format!("number of arguments of the call of {what}")),
+            };
+            let inner = match a {
+                Expr::Reference(r) if r.mutability.is_some() => &*r.expr,
+                x => x,
+            };
+            match self.as_place(inner) {
+                Some((b, segs)) if segs.is_empty() && (self.is_state_var(&b) || matches!(self.lookup(env, &b), Some(Var { kind: Kind::MutLocal, .. }))) => {
+                    let p = self.fresh("p");
+                    mut_args.push((b, p));
+                }
+                _ => return self.unsupported(a.span(), format!("argument passed on as `&mut` state to {what} (only a `&mut` parameter or a `let mut` local):")),
+            }
+        }
+        let mut args = vec![];
+        if m.args.len() != want.len() {
+            return self.err(sp, format!("number of arguments of the call of {what}"));
+        }
+        for (k, (a, w)) in m.args.iter().zip(want).enumerate() {
+            if let Some(pos) = mut_idx.iter().position(|x| *x == k) {
+                args.push(L::atom(lean_ident(&mut_args[pos].0)));
+                continue;
+            }
+            let (l, t) = self.arg_expected(a, w, env)?;
+            if !assignable(w, &t) {
+                return self.err(sp, format!("argument types of the call of {what}"));
+            }
+            args.push(l);
+        }
         let r = self.fresh("r");
-        let (pat, value, vt) = if *ret == Ty::Unit {
-            (r.clone(), L::atom("()"), Ty::Unit)
+        let mut comps = vec![r.clone()];
+        comps.extend(mut_args.iter().map(|(_, p)| p.clone()));
+        let (value, vt) = if *ret == Ty::Unit {
+            (L::atom("()"), Ty::Unit)
         } else {
             let q = self.fresh("q");
-            self.tuple_state = true; // the result may go unused
-            (format!("({r}, {q})"), L::atom(q), ret.clone())
+            comps.push(q.clone());
+            (L::atom(q), ret.clone())
         };
+        if comps.len() > 1 {
+            self.tuple_state = true; // a component may go unused
+        }
+        let pat = if comps.len() == 1 { comps[0].clone() } else { format!("({})", comps.join(", ")) };
         let mut call = format!("{lean} {read}");
         for a in &args {
             call.push(' ');
@@ -230,8 +293,18 @@ impl<'a> Tr<'a> {
         }
         let lets = match &pl {
             Some(pl) => self.store(pl, &r, env),
-            None => vec![(lean_ident(&root), r.clone())],
+            None => {
+                let mut l = vec![(lean_ident(&root), r.clone())];
+                if let Some(bor) = &recv_borrow {
+                    l.push(self.write_back(bor, &lean_ident(&root)));
+                }
+                l
+            }
         };
+        let mut lets = lets;
+        for (x, p) in &mut_args {
+            lets.push((lean_ident(x), p.clone()));
+        }
         let mut parts: Vec<&Expr> = vec![recv];
         parts.extend(m.args.iter());
         self.effect_pre(lets, sp, &[&root, "self"], &parts)?;
@@ -292,6 +365,63 @@ impl<'a> Tr<'a> {
         }
     }
 
+    /// a (possibly refutable) pattern for a value of type `ty`: names, `_`, `&p`, `Some(p)`, `None`, `E::V(p, …)`, tuples →
+    /// the Lean pattern; the names go into `env`
+    pub(crate) fn pattern(&mut self, p: &Pat, ty: &Ty, env: &mut Env, sp: Span) -> Res<String> {
+        let paren = |s: String| if s.contains(' ') && !s.starts_with('(') { format!("({s})") } else { s };
+        match (p, ty) {
+            (Pat::Reference(r), _) if r.mutability.is_none() => self.pattern(&r.pat, ty, env, sp),
+            (Pat::Paren(q), _) => self.pattern(&q.pat, ty, env, sp),
+            (Pat::Wild(_), _) => Ok("_".to_string()),
+            (Pat::Ident(i), Ty::Opt(_)) if i.ident == "None" && i.subpat.is_none() => Ok("none".to_string()),
+            (Pat::Ident(i), _) if i.by_ref.is_none() && i.mutability.is_none() && i.subpat.is_none() => {
+                env.push(var(i.ident.to_string(), ty.clone()));
+                Ok(lean_ident(&i.ident.to_string()))
+            }
+            (Pat::TupleStruct(ts), Ty::Opt(inner)) if ts.path.is_ident("Some") && ts.elems.len() == 1 => {
+                let q = self.pattern(&ts.elems[0], inner, env, sp)?;
+                Ok(format!("some {}", paren(q)))
+            }
+            (Pat::Tuple(t), Ty::Tuple(ts)) if t.elems.len() == ts.len() => {
+                let mut parts = vec![];
+                for (q, qt) in t.elems.iter().zip(ts) {
+                    parts.push(self.pattern(q, qt, env, sp)?);
+                }
+                Ok(format!("({})", parts.join(", ")))
+            }
+            (Pat::Path(_), Ty::Named { rust, .. }) | (Pat::TupleStruct(_), Ty::Named { rust, .. }) => {
+                let (path, subs): (&syn::Path, Vec<&Pat>) = match p {
+                    Pat::Path(pp) => (&pp.path, vec![]),
+                    Pat::TupleStruct(ts) => (&ts.path, ts.elems.iter().collect()),
+                    _ => unreachable!(),
+                };
+                if path.segments.len() != 2 || (path.segments[0].ident != rust.as_str() && path.segments[0].ident != "Self") {
+                    return self.unsupported(sp, format!("pattern (only `{rust}::Variant(..)`)"));
+                }
+                let v = path.segments[1].ident.to_string();
+                let ftys = match self.enum_variants(rust) {
+                    Some(Ok(vs)) => match vs.into_iter().find(|(n, _)| *n == v) {
+                        Some((_, f)) => f,
+                        None => return self.err(sp, format!("`{rust}` has no variant `{v}`")),
+                    },
+                    Some(Err(why)) => return self.err(sp, why),
+                    None => return self.err(sp, format!("outside the supported subset: pattern on `{rust}`, which is not an enum of this file or given by --enum")),
+                };
+                if ftys.len() != subs.len() {
+                    return self.err(sp, format!("`{rust}::{v}` has {} field(s)", ftys.len()));
+                }
+                let mut args = vec![];
+                for (q, qt) in subs.iter().zip(&ftys) {
+                    let t = self.ty(qt)?;
+                    let s = self.pattern(q, &t, env, sp)?;
+                    args.push(paren(s));
+                }
+                Ok(self.lean_variant(rust, &v, &args))
+            }
+            _ => self.unsupported(sp, "pattern"),
+        }
+    }
+
     /// is `x` a parameter whose declared type is a generic `E: Into<T>` of the function?
     fn into_var(&self, env: &Env, x: &str) -> bool {
         self.into_params.iter().any(|p| p == x) && self.lookup(env, x).is_some()
@@ -330,7 +460,8 @@ impl<'a> Tr<'a> {
                 let name = p.path.segments[0].ident.to_string();
                 if name == "self" {
                     // the receiver of a method that does not change it is a value
-                    if let (true, false, Some(v)) = (self.has_self, self.self_mut, self.lookup(env, "self")) {
+                    // (in a `&mut self` method: its current value, e.g. passed on as `&self`)
+                    if let (true, Some(v)) = (self.has_self, self.lookup(env, "self")) {
                         return Ok((L::atom("self"), v.ty.clone()));
                     }
                     return self.unsupported(e.span(), "`self` as a value");
@@ -774,7 +905,7 @@ impl<'a> Tr<'a> {
             if let Some(sg) = self.sigs.iter().find(|x| x.ty.is_empty() && x.name == segs[0]).cloned() {
                 let args = self.args_expected(&c.args, &sg.params, env, &format!("`{}`", segs[0]), sp)?;
                 self.use_sig(&sg);
-                return Ok((L::comp(format!("{} {}", sg.lean, args.iter().map(|a| a.arg()).collect::<Vec<_>>().join(" "))), sg.ret.clone()));
+                return Ok((L::comp(format!("{} {}", self.sig_lean_name(&sg), args.iter().map(|a| a.arg()).collect::<Vec<_>>().join(" "))), sg.ret.clone()));
             }
             // a tuple-struct constructor given by --prim `::Name(T) -> R`
             if let Some(pr) = self.find_prim("", &segs[0]) {
@@ -869,7 +1000,7 @@ impl<'a> Tr<'a> {
         } else if self.is_state_var(&pl.base) {
         } else {
             match self.lookup(env, &pl.base).map(|v| v.kind.clone()) {
-                Some(Kind::MutBorrow(_)) => {}
+                Some(Kind::MutBorrow(_)) | Some(Kind::ElemMut) => {}
                 _ => return self.unsupported(sp, "assignment through a local that is not a mutable borrow of a Vec element:"),
             }
         }
@@ -886,7 +1017,7 @@ impl<'a> Tr<'a> {
     }
 
     pub(crate) fn write_back(&mut self, b: &Borrow, value: &str) -> (String, String) {
-        (lean_ident(&b.vec.base), b.vec.update(&format!("vecSet {} {} {}", b.vec.read(), b.idx, value)))
+        (lean_ident(&b.vec.base), b.vec.update(&format!("{} {} {} {}", b.setter, b.vec.read(), b.idx, value)))
     }
 
     /// the statement's value expression must not read the state an effect inside it changes anywhere but in the effectful call
@@ -985,8 +1116,9 @@ impl<'a> Tr<'a> {
     }
 
     /// `V.get_mut(i)` / `V.get_unchecked_mut(i)`: the index is frozen, the borrow is remembered for whoever binds the value
-    fn vec_borrow(&mut self, vec: &PlaceInfo, idx: &L, sp: Span) -> Res<String> {
-        if !self.is_state_var(&vec.base) {
+    fn vec_borrow(&mut self, vec: &PlaceInfo, idx: &L, sp: Span, env: &Env) -> Res<String> {
+        let elem_mut = matches!(self.lookup(env, &vec.base), Some(Var { kind: Kind::ElemMut, .. }));
+        if !self.is_state_var(&vec.base) && !elem_mut {
             return self.unsupported(sp, "mutable borrow of an element of a Vec that is not a field of `&mut self`:");
         }
         let at = self.fresh("at");
@@ -1021,9 +1153,35 @@ impl<'a> Tr<'a> {
                 }
             }
         }
-        let recv = self.strip(&m.receiver)?;
+        let mut recv = self.strip(&m.receiver)?;
+        // `x.part_mut()` given by --prim as the identity (`&mut self`): the part is modelled as the whole
+        while let Expr::MethodCall(inner) = recv {
+            match self.prims.iter().find(|p| p.method && p.self_mut && p.lean == "_" && p.name == inner.method.to_string() && inner.args.is_empty()).cloned() {
+                Some(pr) => {
+                    note!(self, prims, format!("`{}` is taken as the identity (the part borrowed is modelled as the whole value)", pr.spec));
+                    recv = self.strip(&inner.receiver)?;
+                }
+                None => break,
+            }
+        }
         // methods of a Vec place
         if let Some(pl) = self.place(recv, env)? {
+            if let Ty::Map { rust, val, .. } = &pl.ty {
+                if (name == "get" || name == "get_mut") && m.args.len() == 1 {
+                    let (getter, setter) = match self.opts.maps.iter().find(|(n, _, _)| n == rust) {
+                        Some((_, g, st)) => (g.clone(), st.clone()),
+                        None => return self.unsupported(sp, "method call used as a value"),
+                    };
+                    let (k, _) = self.expr(&m.args[0], env)?;
+                    let mutable = name == "get_mut";
+                    let key = if mutable { L::atom(self.vec_borrow(&pl, &k, sp, env)?) } else { k };
+                    let v = format!("{getter} {} {}", pl.read(), key.arg());
+                    if mutable {
+                        self.last_borrow = Some(Borrow { vec: pl.clone(), idx: key.s.clone(), value: v.clone(), setter });
+                    }
+                    return Ok((L::comp(v), Ty::Opt(val.clone())));
+                }
+            }
             if let Ty::Vec(elem) = &pl.ty {
                 let elem = (**elem).clone();
                 let is_index = |t: &Ty| matches!(t, Ty::Int(64, _) | Ty::Int(0, _));
@@ -1036,7 +1194,7 @@ impl<'a> Tr<'a> {
                             return self.err(sp, format!("argument type of `Vec::{name}`"));
                         }
                         let mutable = name.ends_with("_mut");
-                        let idx = if mutable { L::atom(self.vec_borrow(&pl, &i, sp)?) } else { i };
+                        let idx = if mutable { L::atom(self.vec_borrow(&pl, &i, sp, env)?) } else { i };
                         let opt = format!("vecGet {} {}", pl.read(), idx.arg());
                         let (v, t) = if name.starts_with("get_unchecked") {
                             note!(self, unchecked, format!("line {}: `{}` is a checked lookup here: out of range (undefined behaviour in Rust) the function returns `None`", line_of(sp), self.src_text(sp)));
@@ -1045,7 +1203,7 @@ impl<'a> Tr<'a> {
                             (L::comp(opt), Ty::Opt(Box::new(elem.clone())))
                         };
                         if mutable {
-                            self.last_borrow = Some(Borrow { vec: pl.clone(), idx: idx.s.clone(), value: v.s.clone() });
+                            self.last_borrow = Some(Borrow { vec: pl.clone(), idx: idx.s.clone(), value: v.s.clone(), setter: "vecSet".into() });
                         }
                         return Ok((v, t));
                     }
@@ -1148,16 +1306,17 @@ impl<'a> Tr<'a> {
             (_, "into", 0) if matches!(recv, Expr::Path(p) if p.path.get_ident().map(|i| self.into_var(env, &i.to_string())).unwrap_or(false)) => Ok((r, rt.clone())),
             (Ty::Opt(_), "is_some", 0) => Ok((L::comp(format!("Option.isSome {}", r.arg())), Ty::Bool)),
             (Ty::Opt(_), "is_none", 0) => Ok((L::comp(format!("Option.isNone {}", r.arg())), Ty::Bool)),
-            (Ty::Named { rust, .. }, _, _) => {
+            (Ty::Named { rust, .. } | Ty::Map { rust, .. }, _, _) => {
                 let rust = rust.clone();
                 if let Some(s) = self.sigs.iter().find(|s| s.ty == rust && s.name == name).cloned() {
-                    if !s.has_self || s.mut_params > 0 {
-                        return self.unsupported(sp, "call of a translated function without receiver or with `&mut` parameters as a method:");
+                    if !s.has_self || (s.mut_params > 0 && !s.self_mut) {
+                        return self.unsupported(sp, "call of a translated function without receiver as a method:");
                     }
+                    self.call_mut_idx = s.mut_idx.clone();
                     self.use_sig(&s);
                     let what = format!("`{rust}::{name}`");
                     if s.self_mut {
-                        let (q, qt) = self.mut_call(m, recv, env, &s.lean.clone(), &s.params, &s.ret, s.has_panic, &what)?;
+                        let (q, qt) = self.mut_call(m, recv, env, &self.sig_lean_name(&s), &s.params, &s.ret, s.has_panic, &what)?;
                         if let Some((path, elem)) = &s.ret_borrow {
                             // the callee returned the index of the element it borrows: a checked read, and a borrow for
                             // whoever binds the value
@@ -1170,7 +1329,7 @@ impl<'a> Tr<'a> {
                                 self.inh.insert(lean.clone());
                             }
                             let v = format!("optUnwrap (vecGet {} {})", vec.read(), q.s);
-                            self.last_borrow = Some(Borrow { vec, idx: q.s.clone(), value: v.clone() });
+                            self.last_borrow = Some(Borrow { vec, idx: q.s.clone(), value: v.clone(), setter: "vecSet".into() });
                             return Ok((L::comp(v), elem.clone()));
                         }
                         return Ok((q, qt));
